@@ -1398,7 +1398,33 @@ class Frame:
         return self.ctx.call_value(f, args, kwargs)
 
     def e_Lambda(self, e):
-        raise Undecided("lambda")
+        """a closure over the current environment (late binding, like Python); positional parameters with
+        optional defaults only"""
+        a = e.args
+        if a.vararg or a.kwarg or a.kwonlyargs or a.posonlyargs:
+            raise Undecided("lambda with */** parameters")
+        names = [x.arg for x in a.args]
+        defaults = [self.ev(d) for d in a.defaults]
+        outer = self
+
+        def closure(*args, **kwargs):
+            if len(args) > len(names):
+                raise PyRaise(TypeError, "lambda takes fewer arguments")
+            env = dict(outer.env)
+            bound = dict(zip(names, args))
+            for k, v in kwargs.items():
+                if k not in names or k in bound:
+                    raise PyRaise(TypeError, "lambda got an unexpected argument")
+                bound[k] = v
+            for n, d in zip(names[len(names) - len(defaults):], defaults):
+                bound.setdefault(n, d)
+            if len(bound) != len(names):
+                raise PyRaise(TypeError, "lambda missing argument")
+            env.update(bound)
+            return Frame(outer.ctx, outer.mod, env, outer.func).ev(e.body)
+        closure.__module__ = "pyvc.engine"
+        closure.__qualname__ = "<lambda>"
+        return closure
 
     def _comp(self, e, elt_fn):
         if len(e.generators) != 1:
